@@ -64,6 +64,15 @@ func (g *predGen) keyAtom() string {
 			}
 			shuffle(r, ks)
 		}
+		if r.Chance(0.12) {
+			// a list item that is not a literal: the set of keys is then not known when the plan is built
+			q := make([]string, len(ks))
+			for i := range ks {
+				q[i] = quote(ks[i])
+			}
+			q[r.Intn(len(q))] = pick(r, []string{"value", "lower(value)", "key", "upper(key)", "(value + '')"})
+			return "key in (" + strings.Join(q, ", ") + ")"
+		}
 		return "key in " + inList(ks)
 	case 3, 4:
 		return "key ^= " + quote(prefixOf(r, g.lit()))
